@@ -35,3 +35,11 @@ func VerifSegsIntersect(a, b, c, d Point64, inclusive bool) bool {
 func VerifGetSegmentIntersectPt(a, b, c, d Point64) (Point64, bool) {
 	return getSegmentIntersectPt(a, b, c, d)
 }
+
+// verifExactTriSign is a counter-factual switch: when set, triSign(1) returns 1
+// (the exact sign) instead of 0. It is used only to attribute a rejected trace event
+// to the known triSign finding: the event must validate with the switch on.
+var verifExactTriSign bool
+
+// VerifSetExactTriSign sets the counter-factual switch.
+func VerifSetExactTriSign(on bool) { verifExactTriSign = on }
